@@ -49,8 +49,22 @@ def rule_cache(run):
         st = stores[0]
         key = dotted(st.targets[0].slice)
         kdef = [a for a in body if isinstance(a, ast.Assign) and dotted(a.targets[0]) == key]
-        ok = len(kdef) == 1 and isinstance(kdef[0].value, ast.Tuple) and [dotted(e) for e in kdef[0].value.elts] == comps
-        run.ob(ok, q, file=rel, line=(kdef[0].lineno if kdef else f.node.lineno), detail="key", expected=f"{key} = ({', '.join(comps)})", found=src(kdef[0]) if kdef else "key not built in the function body")
+        # the key must contain every input the created class depends on: all values computed from the subscript
+        # argument BEFORE the key that are read AFTER it (whatever the locals are called)
+        comps_doc = comps
+        comps = [dotted(e) for e in kdef[0].value.elts] if len(kdef) == 1 and isinstance(kdef[0].value, ast.Tuple) else []
+        inputs = {a.arg for a in f.node.args.args if a.arg != "cls"}
+        used_after = set()
+        if kdef:
+            ki = body.index(kdef[0])
+            for stx in body[:ki]:
+                inputs |= {n.id for n in ast.walk(stx) if isinstance(n, ast.Name) and isinstance(n.ctx, ast.Store)}
+            for stx in body[ki + 1:]:
+                used_after |= {n.id for n in ast.walk(stx) if isinstance(n, ast.Name) and isinstance(n.ctx, ast.Load) and n.id in inputs}
+        missing_in_key = sorted(used_after - set(comps) - {key})
+        ok = len(kdef) == 1 and len(comps) == len(comps_doc) and all(comps) and not missing_in_key
+        run.ob(ok, q, file=rel, line=(kdef[0].lineno if kdef else f.node.lineno), detail="key", expected=f"{key} = (<{len(comps_doc)} normalised parameters>), containing every input the new class depends on",
+               found=(src(kdef[0]) + (f"; used after the key but not part of it: {missing_in_key}" if missing_in_key else "")) if kdef else "key not built in the function body")
         look = [s for s in body if isinstance(s, ast.If) and P.T(s.test) == f"{key} in cls._SubTypes"]
         ok = len(look) == 1 and isinstance(look[0].body[-1], ast.Return) and P.T(look[0].body[-1].value) == f"cls._SubTypes[{key}]"
         run.ob(ok, q, file=rel, line=(look[0].lineno if look else f.node.lineno), detail="lookup", expected=f"if {key} in cls._SubTypes: return cls._SubTypes[{key}]", found="ok" if ok else "missing/changed")
@@ -78,8 +92,15 @@ def rule_cache(run):
     # normalisation of bool/int in _TypeQualifier happens before the key
     tq = run.idx.mod(TQ)
     f = tq.func("_TypeQualifier.__getitem__")
-    t = P.T(f.node)
-    ok = t.find("WrappedType = _Boolean") < t.find("type_spec = (WrappedType, direction)") and t.find("WrappedType = Integer") < t.find("type_spec = (WrappedType, direction)") and "WrappedType = _Boolean" in t
+    body = f.node.body
+    kd = [a for a in body if isinstance(a, ast.Assign) and isinstance(a.value, ast.Tuple) and any(isinstance(x, ast.If) and dotted(a.targets[0]) in src(x.test) and "_SubTypes" in src(x.test) for x in body)]
+    ok = False
+    if kd:
+        wrapped = dotted(kd[0].value.elts[0])
+        before = body[: body.index(kd[0])]
+        norm_bool = any(P.has(st, "__w = _Boolean", {"__w": wrapped}) and "is bool" in src(st) for st in before if isinstance(st, ast.If))
+        norm_int = any(P.has(st, "__w = Integer", {"__w": wrapped}) and "is int" in src(st) for st in before if isinstance(st, ast.If))
+        ok = norm_bool and norm_int
     run.ob(ok, "_TypeQualifier.__getitem__", file=tq.rel, line=f.node.lineno, detail="bool-int-normalised", expected="bool -> _Boolean and int -> Integer before the key is built", found="ok" if ok else "changed")
     run.end()
 
@@ -110,7 +131,14 @@ def rule_lattice(run):
     )
     tq = run.idx.mod(TQ)
     f = tq.func("_TypeQualifier.__getitem__")
-    pm = tq.parents
+    # resolve the roles of the locals (wrapped type / direction = the two key components, parent class = the value tested
+    # for being a Port) and phrase the rule over canonical names, whatever the locals are called today
+    body = f.node.body
+    kd = [a for a in body if isinstance(a, ast.Assign) and isinstance(a.value, ast.Tuple) and len(a.value.elts) == 2 and any(isinstance(x, ast.If) and "_SubTypes" in src(x.test) and dotted(a.targets[0]) in src(x.test) for x in body)]
+    pc = [b["__p"] for _n, b in P.find(body, "issubclass(__p, Port)")]
+    if not kd or not pc:
+        raise AnalysisError("_TypeQualifier.__getitem__: key / parent class roles not recognised")
+    f = tq.canonical_view("_TypeQualifier.__getitem__", {dotted(kd[0].value.elts[0]): "WrappedType", dotted(kd[0].value.elts[1]): "direction", pc[0]: "parent_cls"})
     sized = [s for s in ast.walk(f.node) if isinstance(s, ast.If) and P.T(s.test) == "hasattr(WrappedType, '_width')"]
     if not sized:
         raise AnalysisError("sized-vector branch of _TypeQualifier.__getitem__ not found")
